@@ -54,7 +54,8 @@ const EngineDef* find_engine(const std::string& name);
     ENGINE_DECL(reencode) \
     ENGINE_DECL(sink) \
     ENGINE_DECL(writers) \
-    ENGINE_DECL(objects)
+    ENGINE_DECL(objects) \
+    ENGINE_DECL(tools)
 #define ENGINE_DECL(n) void engine_##n(RunCtx&);
 ENGINE_LIST
 #undef ENGINE_DECL
